@@ -11,6 +11,9 @@ def run(ctx):
     for vec, vn in ((0, "amcvector"), (1, "smallvector4"), (3, "stdvector")):
         for cmp, cn in ((0, "less"), (1, "greater"), (2, "transparent")):
             configs.append(("%s-%s" % (vn, cn), base + ["-DC19_VEC=%d" % vec, "-DC19_CMP=%d" % cmp]))
+    # class-type element without a noexcept move, built from constructor arguments (see grid_c19.cpp, C19_ELEM)
+    for vec, vn, cmp, cn in ((0, "amcvector", 0, "less"), (1, "smallvector4", 1, "greater"), (3, "stdvector", 0, "less")):
+        configs.append(("%s-%s-key" % (vn, cn), base + ["-DC19_VEC=%d" % vec, "-DC19_CMP=%d" % cmp, "-DC19_ELEM=1"]))
     cov = grids.run_grids(ctx, "grid_c19.cpp", "G19", configs, ["--nmax", "128" if q else "4096"],
                           lambda f: re.sub(r"\d+", "#", "|".join(f.split("|")[2:]) if f.startswith("n=") else f),
                           "one evaluation = one counted call (lookup, insert/emplace/erase position search, correctly hinted insertion, inline SmallSet lookup) for one (n, key rank); distinct non-trivial = correctly hinted insertions and inline SmallSet lookups (the two claims that are not a plain binary search)")
